@@ -81,6 +81,8 @@ CORPUS = [
     ("pp-unterminated-comment", H + G + OKRULE + "/* never closed\n", None, {}),
     ("slotref-beyond-rule-with-optional", H + G + "table(sub) [cA cB]? cC > @32768 @2 cC {user1 = 3}; endtable;\n", None, {}),
     ("unicode-range-beyond-10ffff", H + "table(glyph) cA = glyphid(3..6); cB = glyphid(7..10); cD = unicode(0x61..2147483648); endtable;\n" + OKRULE, None, {}),
+    ("scaled-number-as-glyph-id", H + "table(glyph) cA = glyphid(3..6); cB = glyphid(7, 8 0m, 9, 10); endtable;\n" + OKRULE, None, {}),
+    ("unused-predefined-attr-as-value", H + "table(glyph) cA = glyphid(3..6) {ua1 = justify.0.stretch}; cB = glyphid(7..10); endtable;\n" + OKRULE, None, {}),
     ("zero-extent-glyph-collision", None, None, {"special": "zero-extent"}),
 ]
 
